@@ -493,9 +493,17 @@ def check_group_centres(ctx, rule, prog):
            'Group.setup calls self.setup_atoms() unconditionally', gmod, calls[0] if calls else setup)
     sc = gmod.func('Group.set_center')
     # the centre is the mean: sum of atom coordinates divided by their number
-    txt = [norm(x).replace(' ', '') for x in walk_no_nested(sc) if isinstance(x, (ast.Assign, ast.AugAssign))]
-    per_axis = all(('self.%s+=atom.%s' % (a, a)) in ''.join(txt) and
-                   any(t.startswith('self.%s/=' % a) and 'len(atoms)' in t for t in txt) for a in 'xyz')
+    lst = [a.arg for a in sc.args.args if a.arg != 'self'][0]
+    loops = [n for n in walk_no_nested(sc) if isinstance(n, ast.For) and norm(n.iter) == lst
+             and isinstance(n.target, ast.Name)]
+    per_axis = False
+    if len(loops) == 1:
+        var = loops[0].target.id
+        txt = [norm(x).replace(' ', '') for x in walk_no_nested(sc) if isinstance(x, (ast.Assign, ast.AugAssign))]
+        summed = [norm(x).replace(' ', '') for x in walk_no_nested(loops[0]) if isinstance(x, ast.AugAssign)]
+        per_axis = all(('self.%s+=%s.%s' % (a, var, a)) in summed and
+                       any(t.startswith('self.%s/=' % a) and 'len(%s)' % lst in t for t in txt)
+                       and any(t.startswith('self.%s=0' % a) for t in txt) for a in 'xyz')
     ctx.ob(rule, 'centre:mean-of-atom-positions', per_axis,
            'Group.set_center sets each axis to the sum of the atoms\' coordinate divided by '
            'len(atoms)', gmod, sc)
